@@ -140,6 +140,7 @@ def cases(tier, seed):
     for be in ('sim', 'fast'):
         out.append({'fam': 'MEM', 'aw': 2, 'bw': 3, 'nr': 1, 'nw': 1, 'k': 'two_sims', 'backend': be, 'K': 2})
         out.append({'fam': 'MEM', 'aw': 1, 'bw': 8, 'nr': 2, 'nw': 2, 'k': 'two_sims', 'backend': be, 'K': 2})
+        out.append({'fam': 'MEM', 'aw': 2, 'bw': 3, 'nr': 1, 'nw': 1, 'k': 'two_sims', 'backend': be, 'K': 2, 'shared_map': True})
     for nwc in (1, 2, 3):
         for be in BACKENDS:
             out.append({'fam': 'MEM', 'aw': 2, 'bw': 3, 'nr': 1, 'nw': nwc, 'cond': True, 'k': 'step', 'backend': be})
